@@ -591,3 +591,8 @@ MANIFEST_ENTRY = dict(
     note='k is bounded (2-3; semaphores n <= 2 with n+1 contenders); file-system/flock semantics are a stated model; the extraction bounds failures per attempt and folds the polling loop '
          '(checked structurally).',
 )
+
+# --- manifest text refreshed after rounds 6-8 (obligations added since the entry above was written)
+MANIFEST_ENTRY['text'] = MANIFEST_ENTRY['text'] + ' The lock-directory cleanup that TileLocker.lock triggers never unlinks a lock file younger than the configured lock timeout (E1: timeout, clock, file ages symbolic).'
+MANIFEST_ENTRY['engine'] = 'E3+E1'
+META['assumptions'] = list(META.get('assumptions', [])) + ['lockdir-cleanup obligation: os (listdir/getmtime/unlink) and time are stubs, two lock files with symbolic ages, lock timeout any real in [0, 1e5] s']
